@@ -213,6 +213,34 @@ fn one(ctx: &mut Ctx, rng: &mut Rng) {
             return Err(("delta".into(), "warning".into(), format!("{:?}", w.0)));
         }
         indistinguishable(&copy4, &m, &absent).map_err(st("after-delta-from-pred"))?;
+        // a refused item (over the 64 KiB / 1024-item limits) must leave the builder usable:
+        // the finished snapshot holds exactly the accepted items and still survives the wire
+        {
+            let mut b = Builder::new();
+            for k in &order {
+                b.add_item(k.0, k.1, &m[k]).map_err(|e| ("refusal-probe".to_string(), "builder-refused".to_string(), format!("{:?}", e)))?;
+            }
+            let huge = vec![7i32; 17_000];
+            let mut probe_id = 0u16;
+            while m.contains_key(&(TypeId::Ordinal(1), probe_id)) {
+                probe_id += 1;
+            }
+            if b.add_item(TypeId::Ordinal(1), probe_id, &huge).is_ok() {
+                return Err(("refusal-probe".into(), "item-over-64KiB-accepted".into(), String::new()));
+            }
+            let total_items = m.len() + m.keys().filter_map(|k| if let TypeId::Uuid(u) = k.0 { Some(u) } else { None }).collect::<std::collections::BTreeSet<_>>().len();
+            if total_items == 1024 && b.add_item(TypeId::Ordinal(1), probe_id, &[1]).is_ok() {
+                return Err(("refusal-probe".into(), "item-1025-accepted".into(), String::new()));
+            }
+            let after = b.finish();
+            indistinguishable(&after, &m, &absent).map_err(st("after-refused-item"))?;
+            let mut bytes2: Vec<u8> = Vec::with_capacity(400_000);
+            with_packer(&mut bytes2, |p| after.write(&mut buf, p).map(|_| ())).map_err(|_| ("after-refused-item".to_string(), "write-capacity".to_string(), String::new()))?;
+            let mut c5 = Snap::empty();
+            let mut w5 = Warnings::new();
+            c5.read(&mut w5, &mut tmp, &bytes2).map_err(|e| ("after-refused-item".to_string(), format!("reread:{:?}", e), String::new()))?;
+            indistinguishable(&c5, &m, &absent).map_err(st("after-refused-item-reread"))?;
+        }
         // recycle the wire copy: the builder still knows the UUID types
         let b = copy.recycle();
         let mut m2 = Typed::new();
